@@ -232,6 +232,7 @@ func (q *quorumAckTracker) WaitForCommitOffsetAsync(_ context.Context, offset in
 }
 
 func (q *quorumAckTracker) notifyCommitOffsetAdvanced(commitOffset int64) {
+	verifEmit(q, "TCommit", "off", commitOffset, "prev", q.commitOffset.Load(), "head", q.headOffset.Load(), "required", q.requiredAcks)
 	q.commitOffset.Store(commitOffset)
 
 	for _, r := range q.waitingRequests {
